@@ -10,7 +10,7 @@ from ..cfg import CFG, EXIT
 from ..core import Ctx
 from ..flow import AV
 from ..model import AnalysisError, ClassInfo, FuncInfo, dotted, kwarg, norm, walk_no_nested
-from .common import assigned_value, bound_args, enclosing, prog, resolve_local
+from .common import assigned_value, bound_args, enclosing, pargs, pnorm, prog, resolve_local
 from .kernels import (concrete_dissimilarities, extract_d, extract_d_mat, identify, spec_formula, swap12)
 
 CAPTURED = {"delta_empty", "_matrix", "alpha", "beta", "positional_dissim", "categorical_dissim"}
@@ -44,7 +44,7 @@ def array_layout(ctx: Ctx, rule: str) -> None:
                       construct=f"field {k}", key=f"layout{k}")
         n = got.get(3)
         ok = n is not None and isinstance(n.value, ast.Call) and norm(n.value.func).split(".")[-1] in ("index", "_category_index") \
-            and norm(n.value.args[-1]).endswith(".annotation")
+            and pargs(M, n.value) and norm(pargs(M, n.value)[-1]).endswith(".annotation")
         ctx.check(ok, rule, f, n, "array field 3 holds the index of the unit's label in the (sorted) category set",
                   bad_detail="array field 3 does not hold the category index", construct="field 3", key="layout3")
 
